@@ -124,7 +124,7 @@ def run(ctx):
         ctx.extra.setdefault("binding_demo", []).append({"corruption": "kernel model allowed to break the reference protocol (MC_PtMounted_misbehave.cfg)", "rejected_with": m["violated"]})
         if getattr(ctx, "replay", None):
             raise C.ToolError("X05 histories are reproduced by seed (VERIF_SEED), not by a replay file")
-        nseg, length = (8, 60) if ctx.quick else (48, 120)
+        nseg, length = (8, 100) if ctx.quick else (48, 160)
         trace = ctx.path("sessions.ndjson")
         r = C.run_bin(bd, "ptmounted", ["run", work, trace, nseg, length], env={"VERIF_SEED": ctx.seed}, timeout=1700, ok_codes=(0, 3))
         if r.returncode == 3:
